@@ -35,7 +35,7 @@ def _etree(world, name):
         return world.node_tree(int(name[1:]))
     try:
         return S.tree_of(world.objs[name])
-    except (S.Cyclic, RecursionError):
+    except (S.Cyclic, RecursionError, S.WalkerUnavailable):
         return ("Unwalkable", name)
 
 
@@ -155,6 +155,10 @@ def collect(run):
     return vg, ag, eqs
 
 
+def _ts(t):
+    return S.tree_str(t) if isinstance(t, tuple) else str(t)[:300]
+
+
 def _same_point(w, p, q):
     return p == q or dict((n, v) for n, v in w.scn["points"][p]) == dict((n, v) for n, v in w.scn["points"][q])
 
@@ -250,7 +254,7 @@ def posthoc(run):
             sid = max(e[4] for e in entries)
             viols.append(Violation("C06", "as-expression-results-differ", sid,
                                    f"as_expression() of d/d{v} of {S.tree_str(etree)}: "
-                                   + "; ".join(f"{lab} -> {S.tree_str(t)}" for lab, t, _, _, _ in entries[:6])
+                                   + "; ".join(f"{lab} -> {_ts(t)}" for lab, t, _, _, _ in entries[:6])
                                    + f" [{verdict}]"))
     for step, val, what in eqs:
         st["eq_checked"] += 1
@@ -354,6 +358,8 @@ def classify_asx(run, key, entries, known):
     if not fwd:
         return "known:F2"
     ta, tb = rev[0][1], fwd[0][1]
+    if not (isinstance(ta, tuple) and isinstance(tb, tuple)):
+        return "known:F2"      # degraded mode (structural walker unavailable): attributed by call site only
     names = []
     for t in (ta, tb, key[0]):
         for n in S.tree_vars(t):
